@@ -151,6 +151,29 @@ def run(ctx):
                 if np.abs(a - b).max() > 3e-2 * a.max():
                     ctx.violation({'kind': 'image-after-rescale', 'upscale': s > 1, 'nseg>1': nseg > 1},
                                   {'shape': shape, 'scale': s, 'max_rel_diff': float(np.abs(a - b).max() / a.max())}, case=None)
+    # a plane given by a mask and a SCALAR amplitude (the documented default amplitude = 1) is the same optics as the one with that
+    # amplitude written out as an array: transmitted power is preserved
+    for shape in ((32, 32), (33, 31), (24, 40)):
+        for nseg in (1, 2):
+            for a0 in (1, 0.5):
+                for s_ in (0.5, 1.5, 2.0, 3.0):
+                    ref = smooth_plane(lentil, shape, [[1, 2], [1, 2]], nseg)
+                    mk = np.array(ref.mask, copy=True)
+                    mk[..., :3, :] = 0
+                    mk[..., -3:, :] = 0
+                    mk[..., :, :3] = 0
+                    mk[..., :, -3:] = 0                      # (a hard edge inside the array: its area is kept to one sample of perimeter)
+                    pl = lentil.Pupil(amplitude=a0, opd=ref.opd, mask=mk, pixelscale=ref.pixelscale, focal_length=10.0)
+                    nleaf += 1
+                    try:
+                        t0 = float((lentil.Wavefront(1e-6) * pl).intensity.sum())
+                        t1 = float((lentil.Wavefront(1e-6) * pl.rescale(s_)).intensity.sum())
+                    except Exception as ex:
+                        ctx.violation({'kind': 'scalar-amplitude-plane-' + type(ex).__name__, 'nseg>1': nseg > 1}, {'shape': shape, 'scale': s_, 'error': repr(ex)[:200]}, case=None)
+                        continue
+                    if abs(t1 - t0) > 0.25 * t0:           # hard-edged mask: area to O(perimeter); a missing 1/s is a factor s^2 >= 2.25
+                        ctx.violation({'kind': 'transmitted-power-after-rescale', 'amplitude': 'scalar', 'upscale': s_ > 1, 'nseg>1': nseg > 1},
+                                      {'shape': shape, 'scale': s_, 'amplitude': a0, 'before': t0, 'after': t1}, case=None)
     # beam width: a Gaussian amplitude of RMS width sigma samples has RMS width s*sigma samples after rescaling by s.  Pairs of factors
     # that give the SAME output size on the same input shape are used one after the other (and the first again at the end): the
     # magnification is the factor that was asked for, not one remembered from an earlier call
